@@ -9,6 +9,7 @@ TRUSTED_BASE = [
     "Lean 4.33 kernel; axioms allowed: propext, Classical.choice, Quot.sound (audited by #print axioms on every property theorem)",
     "harness/translate.py (T1: tables and CPython-parsed regexes -> Generated/*.lean; bridge lemmas Generated = Pinned)",
     "harness correspondence (apigen descriptor builder standing in for protoc, genrun, libhost loopback servers, canonicalisation, oracles)",
+    "harness/pyfun2lean.py + PyRt.lean (T1-f: small pure functions translated from the current source; bridge lemmas by rfl) and harness/srcpin.py (T1-s: digests of the anchored functions the hand-written model mirrors)",
     "hand-written Lean model: tied to /repo only through T1 + T2 + T3 on the inputs this run explored",
     "runtime shell modelled not verified: CPython, re, protobuf/proto-plus, grpcio, requests, google-api-core, jinja2; pandoc replaced by a stand-in",
 ]
